@@ -4,6 +4,7 @@ package main
 
 import (
 	"container/heap"
+	"math/big"
 	"fmt"
 	"go/token"
 	"go/types"
@@ -201,6 +202,7 @@ func (f *Frame) analyse() {
 	sort.Slice(hs, func(i, j int) bool { return hs[i].Index < hs[j].Index })
 	// ordinal in source order of the header position
 	sort.SliceStable(hs, func(i, j int) bool { return f.rpo[hs[i]] < f.rpo[hs[j]] })
+	nameCount := map[string]int{}
 	for i, h := range hs {
 		l := f.loops[h]
 		l.ordinal = i
@@ -209,23 +211,20 @@ func (f *Frame) analyse() {
 				l.phis = append(l.phis, phi)
 			}
 		}
-		// find spec
+		// find spec: by the names of the variables the loop itself assigns (innermost loop of the DebugRef),
+		// the k-th loop (in source order) with a given name is addressed as name#k
 		if f.fc != nil {
+			names := f.loopOwnNames(l)
 			for _, phi := range l.phis {
-				if sp := f.fc.loopSpec(phi.Comment, -1); sp != nil {
-					l.spec = sp
-					l.key = sp.Key
-					break
+				if phi.Comment != "" && phi.Comment != "rangeindex" {
+					names[phi.Comment] = true
 				}
 			}
-			if l.spec == nil {
-				// range loops: key by the name of the range key/value variable (DebugRef in the body) or ordinal
-				for name := range f.loopVarNames(l) {
-					if sp := f.fc.loopSpec(name, -1); sp != nil {
-						l.spec = sp
-						l.key = sp.Key
-						break
-					}
+			for _, name := range sortedKeys(names) {
+				nameCount[name]++
+				if sp := f.fc.loopSpecNamed(name, nameCount[name]); sp != nil && l.spec == nil {
+					l.spec = sp
+					l.key = sp.Key
 				}
 			}
 			if l.spec == nil {
@@ -265,17 +264,30 @@ func (f *Frame) analyse() {
 	}
 }
 
-// loopVarNames: source variable names bound by DebugRefs inside the loop (used to key range loops)
-func (f *Frame) loopVarNames(l *Loop) map[string]bool {
+// loopOwnNames: source variables assigned by DebugRefs whose innermost enclosing loop is l.
+func (f *Frame) loopOwnNames(l *Loop) map[string]bool {
 	m := map[string]bool{}
 	for b := range l.blocks {
+		// innermost loop of b
+		inner := l
+		for _, o := range f.loops {
+			if o.blocks[b] && len(o.blocks) < len(inner.blocks) {
+				inner = o
+			}
+		}
+		if inner != l {
+			continue
+		}
 		for _, ins := range b.Instrs {
 			if d, ok := ins.(*ssa.DebugRef); ok && !d.IsAddr {
-				if id, ok := d.Expr.(interface{ String() string }); ok {
-					_ = id
-				}
 				if obj := d.Object(); obj != nil {
-					m[obj.Name()] = true
+					if v, isVar := obj.(*types.Var); isVar {
+						// only variables declared inside the loop (position within the loop's extent is approximated
+						// by: the value is defined in a block of the loop)
+						if vi, ok := d.X.(ssa.Instruction); ok && l.blocks[vi.Block()] {
+							m[v.Name()] = true
+						}
+					}
 				}
 			}
 		}
@@ -695,9 +707,15 @@ func (f *Frame) cutHeader(n *Node, l *Loop) {
 	ex := f.ex
 	ns := f.mergeIn(n)
 	base := fmt.Sprintf("%s.loop.%s", f.oblBase(), l.key)
+	_ = base
 	// 1. invariants hold on entry
 	if l.spec != nil {
+		f.bindAlias(l, ns.names, func(phi *ssa.Phi) Val { return ns.env[phi] })
 		sc := f.scope(ns)
+		for _, lt := range l.spec.Lets {
+			ns.names[lt.Name] = Val{T: sc.eval(lt.Expr)}
+			sc = f.scope(ns)
+		}
 		for i, inv := range l.spec.Invariants {
 			if !hasProp(inv.Props, ex.prop) {
 				continue
@@ -711,12 +729,13 @@ func (f *Frame) cutHeader(n *Node, l *Loop) {
 	written := f.dryRun(l, ns)
 	// 3. havoc
 	for _, phi := range l.phis {
-		v := f.havocVal(phi.Type(), f.prefix+"h_"+l.key+"_"+phi.Name(), ns.reach)
+		v := f.havocVal(phi.Type(), f.prefix+"h_"+sanitize(l.key)+"_"+phi.Name(), ns.reach)
 		ns.env[phi] = v
 		if phi.Comment != "" {
 			ns.names[phi.Comment] = v
 		}
 	}
+	f.bindAlias(l, ns.names, func(phi *ssa.Phi) Val { return ns.env[phi] })
 	var ws []*Cell
 	for c := range written {
 		if _, live := ns.st[c]; live {
@@ -895,6 +914,21 @@ func (f *Frame) dryRun(l *Loop, ns nodeState) map[*Cell]map[int]bool {
 	return written
 }
 
+// bindAlias binds the loop's `as` name to its range index (or its first induction phi).
+func (f *Frame) bindAlias(l *Loop, names map[string]Val, val func(*ssa.Phi) Val) {
+	if l.spec == nil || l.spec.Alias == "" || len(l.phis) == 0 {
+		return
+	}
+	pick := l.phis[0]
+	for _, phi := range l.phis {
+		if phi.Comment == "rangeindex" {
+			pick = phi
+			break
+		}
+	}
+	names[l.spec.Alias] = val(pick)
+}
+
 // backEdge: invariant preserved, measure decreases.
 func (f *Frame) backEdge(l *Loop, e Edge) {
 	ex := f.ex
@@ -911,6 +945,7 @@ func (f *Frame) backEdge(l *Loop, e Edge) {
 			names[phi.Comment] = v
 		}
 	}
+	f.bindAlias(l, names, func(phi *ssa.Phi) Val { return f.operand(env, phi.Edges[pi]) })
 	ns := nodeState{reach: e.cond, env: env, names: names, st: e.st}
 	if l.spec == nil {
 		return
@@ -982,13 +1017,16 @@ func (ex *Exec) rangeFacts(t Term, typ types.Type, depth int) []Term {
 			out = append(out, ex.rangeFacts(FieldOf(t, i), u.Field(i).Type(), depth-1)...)
 		}
 	case *types.Slice:
-		out = append(out, leT(IntLit64(0, SInt), FieldOf(t, 1)), leT(IntLit64(0, SInt), FieldOf(t, 2)),
-			Implies(FieldOf(t, 3), Eq(FieldOf(t, 2), IntLit64(0, SInt))))
+		out = append(out, leT(IntLit64(0, SInt), slLen(t)), leT(slLen(t), IntLit(maxSliceLen, SInt)),
+			Implies(slNil(t), Eq(slLen(t), IntLit64(0, SInt))))
 	case *types.Map:
 		out = append(out, leT(IntLit64(0, SInt), FieldOf(t, 2)), Implies(FieldOf(t, 3), Eq(FieldOf(t, 2), IntLit64(0, SInt))))
 	}
 	return out
 }
+
+// slice lengths are assumed to stay below 2^62 (an int64 index cannot overflow by adding one)
+var maxSliceLen = new(big.Int).Lsh(big.NewInt(1), 62)
 
 func funcKey(fn *ssa.Function) string {
 	pkg := ""
